@@ -48,7 +48,7 @@ namespace vf::rt {
         int max_thread_count = 1000;
         int min_tasks_to_steal_pending = 0;
         int min_tasks_to_steal_staged = 0;
-        int max_idle_loop_count = -1;    // -1 = default
+        int max_busy_loop_count = -1;    // -1 = default (2000)
         std::vector<Perturb> plan;
         std::vector<std::string> extra_ini;
 
@@ -59,7 +59,8 @@ namespace vf::rt {
                << ", \"stealing\": " << (stealing ? "true" : "false") << ", \"max_terminated\": " << max_terminated
                << ", \"init_threads\": " << init_threads << ", \"max_thread_count\": " << max_thread_count
                << ", \"min_steal_pending\": " << min_tasks_to_steal_pending
-               << ", \"min_steal_staged\": " << min_tasks_to_steal_staged << ", \"plan\": [";
+               << ", \"min_steal_staged\": " << min_tasks_to_steal_staged << ", \"max_busy_loop_count\": " << max_busy_loop_count
+               << ", \"plan\": [";
             for (std::size_t i = 0; i < plan.size(); ++i)
             {
                 os << (i ? ", " : "") << "{\"site\": " << plan[i].site << ", \"period\": " << plan[i].period
@@ -87,6 +88,7 @@ namespace vf::rt {
         c.max_thread_count = t.pick({1000, 20});
         c.min_tasks_to_steal_pending = t.pick({0, 0, 5});
         c.min_tasks_to_steal_staged = t.pick({0, 0, 5});
+        c.max_busy_loop_count = t.pick({-1, -1, 1, 5, 50});
         int np = t.weighted({3, 3, 2, 1, 1});
         for (int i = 0; i < np && !perturb_sites.empty(); ++i)
         {
@@ -282,6 +284,7 @@ namespace vf::rt {
         a.push_back("--pika:ini=pika.thread_queue.max_thread_count=" + std::to_string(c.max_thread_count));
         a.push_back("--pika:ini=pika.thread_queue.min_tasks_to_steal_pending=" + std::to_string(c.min_tasks_to_steal_pending));
         a.push_back("--pika:ini=pika.thread_queue.min_tasks_to_steal_staged=" + std::to_string(c.min_tasks_to_steal_staged));
+        if (c.max_busy_loop_count >= 0) a.push_back("--pika:ini=pika.max_busy_loop_count=" + std::to_string(c.max_busy_loop_count));
         for (auto& e : c.extra_ini) a.push_back("--pika:ini=" + e);
         return a;
     }
@@ -318,11 +321,24 @@ namespace vf::rt {
         std::atomic<bool> stop{false};
         int K = 6;
         int period_ms = 40;
+        // stop mode: used around finalize()/stop(), where pools may be torn down at any moment and
+        // must not be sampled.  The verdict then rests on harness-side facts only: every generated
+        // task has finished (all_done), the activation counter does not move, and the global
+        // activity count stays non-zero -> thread_manager::wait() inside stop() can never return.
+        std::atomic<int> stop_mode{0};
+        std::function<bool()> all_done;
+        std::mutex snap_mtx;    // held while pools are sampled; entering stop mode waits for it
+        void enter_stop_mode(std::function<bool()> f)
+        {
+            std::lock_guard<std::mutex> l(snap_mtx);
+            all_done = std::move(f);
+            stop_mode.store(1);
+        }
 
-        static bool snapshot(long long& suspended, std::string& detail)
+        static bool snapshot(long long& suspended, std::string& detail, long long* pending_out = nullptr)
         {
             using pika::threads::detail::thread_schedule_state;
-            long long act = 0, pend = 0, stag = 0, susp = 0, poll = 0;
+            long long act = 0, pend = 0, stag = 0, susp = 0, poll = 0, qlen = 0;
             auto& rp = pika::resource::get_partitioner();
             std::size_t np = rp.get_num_pools();
             for (std::size_t i = 0; i < np; ++i)
@@ -337,11 +353,17 @@ namespace vf::rt {
                 pend += pool.get_thread_count(thread_schedule_state::pending_do_not_schedule,
                     pika::execution::thread_priority::default_, std::size_t(-1), false);
                 poll += static_cast<long long>(pool.get_scheduler()->get_polling_work_count());
+                qlen += pool.get_scheduler()->get_queue_length();
             }
             suspended = susp;
+            if (pending_out) *pending_out = pend;
             detail = "active=" + std::to_string(act) + " pending=" + std::to_string(pend) + " staged=" + std::to_string(stag) +
-                " suspended=" + std::to_string(susp) + " polling=" + std::to_string(poll);
-            return act == 0 && pend == 0 && stag == 0 && poll == 0;
+                " suspended=" + std::to_string(susp) + " polling=" + std::to_string(poll) + " queued=" + std::to_string(qlen);
+            // Nothing can run again iff no task is active and no queue holds anything (work items or
+            // staged descriptions).  A task whose state word says pending but which sits in no queue
+            // is not runnable: counting queue contents, not state words, is what makes a dropped
+            // task visible.  (A worker holding a just-popped task moves the activation counter.)
+            return act == 0 && qlen == 0 && stag == 0 && poll == 0;
         }
 
         void start()
@@ -356,7 +378,8 @@ namespace vf::rt {
                     struct timespec ts { 0, period_ms * 1000000l };
                     nanosleep(&ts, nullptr);
                     if (stop.load()) break;
-                    if (dump_after > 0 && now_s() - t_start > dump_after)
+                    std::unique_lock<std::mutex> snap_lock(snap_mtx);
+                    if (dump_after > 0 && now_s() - t_start > dump_after && !stop_mode.load())
                     {
                         long long su = 0;
                         std::string d;
@@ -366,12 +389,26 @@ namespace vf::rt {
                             G().diagnose ? G().diagnose().c_str() : "");
                         t_start = now_s();
                     }
+                    if (stop_mode.load())
+                    {
+                        std::uint64_t ph = G().phase_counter.load();
+                        bool stuck = all_done && all_done() && pika::threads::detail::get_global_activity_count() != 0 &&
+                            G().external_actors.load() == 0;
+                        if (!stuck) { quiet = 0; continue; }
+                        if (quiet == 0) first_phase = ph;
+                        if (ph != first_phase) { quiet = 0; continue; }
+                        if (++quiet >= 3 * K)
+                            fail_now("stuck_in_stop", "every generated task has finished and no task was activated for " + std::to_string(3 * K) +
+                                    " samples, but the global activity count is still " + std::to_string(static_cast<long long>(pika::threads::detail::get_global_activity_count())) +
+                                    ": wait()/stop() can never return");
+                        continue;
+                    }
                     if (!G().main_waiting.load() || G().external_actors.load() != 0) { quiet = 0; continue; }
-                    long long susp = 0;
+                    long long susp = 0, pend = 0;
                     std::string d;
                     bool q = false;
                     std::uint64_t ph0 = G().phase_counter.load();
-                    try { q = snapshot(susp, d); } catch (...) { q = false; }
+                    try { q = snapshot(susp, d, &pend); } catch (...) { q = false; }
                     std::uint64_t ph = G().phase_counter.load();
                     if (!q || ph != ph0) { quiet = 0; continue; }
                     if (quiet == 0) first_phase = ph;
@@ -381,11 +418,11 @@ namespace vf::rt {
                     if (!G().main_waiting.load() || G().external_actors.load() != 0 || stop.load()) { quiet = 0; continue; }
                     // no suspended task at all: the state is only stuck if the global activity count
                     // leaked (otherwise the waiting main thread is merely about to notice)
-                    if (quiet >= K && susp == 0 && pika::threads::detail::get_global_activity_count() == 0) { quiet = 0; continue; }
+                    if (quiet >= K && susp == 0 && pend == 0 && pika::threads::detail::get_global_activity_count() == 0) { quiet = 0; continue; }
                     if (quiet >= K)
                     {
                         std::string extra = G().diagnose ? G().diagnose() : std::string();
-                        fail_now(susp > 0 ? "deadlock_quiescent" : "stuck_quiescent",
+                        fail_now(pend > 0 ? "dropped_task_quiescent" : susp > 0 ? "deadlock_quiescent" : "stuck_quiescent",
                             "runtime quiescent for " + std::to_string(K) + " consecutive samples (" + d +
                                 ", phase counter unchanged, no external actor) while the main thread still waits; " + extra);
                     }
